@@ -97,6 +97,19 @@ def getSTH (P : Prims) (verifier : Option Key) (r : Rsp SthBody) : Res STH :=
           | .err => .rspErr r.status r.raw
           | .panic => .panic
 
+/-! ### construction -/
+
+/-- client.New / jsonclient.New on the key option of `jsonclient.Options`.  `given`: PublicKeyDER is non-empty or the PublicKey
+string is non-empty (whatever it contains); `parsed`: the key the option holds when it is exactly one well-formed key that
+NewSignatureVerifier supports (X.509 / PEM parsing and the key policy are C11's / C05's subjects).  The result is the
+client's verifier.  Shape regenerated: `Gen.clientKeyOptionFailsClosed`. -/
+def newClient (given : Bool) (parsed : Option Key) : Res (Option Key) :=
+  if !Gen.clientKeyOptionFailsClosed then .ok parsed
+  else if !given then .ok none
+  else match parsed with
+    | some k => .ok (some k)
+    | none => .err
+
 /-! ### add-chain / add-pre-chain -/
 
 structure SctBody where
